@@ -137,7 +137,7 @@ def install_cfitsio(it, session, consts):
             wr(stp, new); return new
         return h
     def open_file(it_, a):
-        wr(a[0], 1); return 0 if S.f is not None else 104
+        wr(a[0], G.Ptr(it_.array('fitsfile', [0]), 0)); return 0 if S.f is not None else 104
     def get_num_hdus(it_, a): wr(a[1], S.get_num_hdus()); return 0
     def movabs_hdu(it_, a):
         st, typ = S.movabs_hdu(a[1])
@@ -191,12 +191,18 @@ def install_cfitsio(it, session, consts):
                  ("fits_get_hdrspace", get_hdrspace), ("fits_read_keyn", read_keyn), ("fits_read_key", read_key), ("fits_read_pix", read_pix), ("fits_movnam_hdu", movnam_hdu)):
         f.__name__ = n; it.hooks[n] = guard(f)
 
+def io_fault(it):
+    """fault injection for the writer side: the k-th attempted cfitsio call (it.fail_at) fails without doing anything"""
+    k = getattr(it, "io_calls", 0); it.io_calls = k + 1
+    return getattr(it, "fail_at", None) == k
+
 def install_cfitsio_writer(it, writer, consts):
     W = writer
     def guard(fn):
         def h(it_, a):
             stp = a[-1]; st = rd(stp)
             if st > 0: return st
+            if io_fault(it_): wr(stp, 106); return 106        # WRITE_ERROR
             new = fn(it_, a); wr(stp, new); return new
         return h
     def create_img(it_, a):
